@@ -83,25 +83,26 @@ theorem handleMergeConflict_step {cfg : Cfg} {m m' : M} {l : L} {b : Bool}
   split at e
   · cases e; exact StepS.refl g
   · split at e
-    all_goals first
-      | (split at e
-         · cases e; exact ReachC.stepS ((Reach.start g).flushMP.upd rfl rfl rfl rfl rfl rfl)
-         · cases e; exact StepS.refl g)
-      | (rename_i hst
-         have c : ReachC m m := reachC_of_quiet g (by rw [hst]; rfl)
-         refine storeOr_step e ?_ (fun x hx => storeLine_step hx g)
-         intro x hx
-         first
-           | (rcases orElse_some hx with h1 | h2
-              · exact enterAncestral_step h1 c
-              · rcases orElse_some h2 with h3 | h4
+    · split at e
+      · cases e; exact ReachC.stepS ((Reach.start g).flushMP.upd rfl rfl rfl rfl rfl rfl)
+      · cases e; exact StepS.refl g
+    · split at e
+      all_goals first
+        | (rename_i hst
+           have c : ReachC m m := reachC_of_quiet g (by rw [hst]; rfl)
+           refine storeOr_step e ?_ (fun x hx => storeLine_step hx g)
+           intro x hx
+           first
+             | (rcases orElse_some hx with h1 | h2
+                · exact enterAncestral_step h1 c
+                · rcases orElse_some h2 with h3 | h4
+                  · exact enterTheirs_step h3 c
+                  · exact exitMergeConflict_step h4 c)
+             | (rcases orElse_some hx with h3 | h4
                 · exact enterTheirs_step h3 c
                 · exact exitMergeConflict_step h4 c)
-           | (rcases orElse_some hx with h3 | h4
-              · exact enterTheirs_step h3 c
-              · exact exitMergeConflict_step h4 c)
-           | exact exitMergeConflict_step hx c)
-      | (cases e; exact StepS.refl g)
+             | exact exitMergeConflict_step hx c)
+        | (cases e; exact StepS.refl g)
 
 theorem handleGitShowFile_step {cfg : Cfg} {m m' : M} {l : L} {b : Bool}
     (e : handleGitShowFile cfg m l = .ok (b, m')) (g : Good m) : StepS m m' := by
@@ -134,9 +135,7 @@ theorem handleGrep_step {cfg : Cfg} {m m' : M} {l : L} {b : Bool}
 theorem handleShouldSkip_step {cfg : Cfg} {m m' : M} {l : L} {b : Bool}
     (e : handleShouldSkip cfg m l = .ok (b, m')) (g : Good m) : StepS m m' := by
   unfold handleShouldSkip at e
-  split at e
-  · cases e
-  · cases e; exact StepS.refl g
+  cases e; exact StepS.refl g
 
 theorem handleEmitUnchanged_step {cfg : Cfg} {m m' : M} {l : L} {b : Bool}
     (e : handleEmitUnchanged cfg m l = .ok (b, m')) (g : Good m) : StepS m m' := by
@@ -225,7 +224,8 @@ theorem tailOp_reach {cfg : Cfg} {m0 m m' : M} {op : String} (e : tailOp cfg m o
   split at e
   · cases e; exact ⟨h.flushMP.toReach, fun _ => by simp, fun _ => by simp, fun hh => absurd hh (by decide)⟩
   · obtain ⟨hm, hp⟩ := hq rfl
-    obtain ⟨c, _⟩ := pendingDiffName_reachC cfg { h with minus := hm, plus := hp } e
+    cases e
+    obtain ⟨c, _⟩ := pendingDiffName_reachC cfg { h with minus := hm, plus := hp }
     exact ⟨c.toReach, fun _ => ⟨c.minus, c.plus⟩, fun hh => absurd hh (by decide), fun hh => absurd hh (by decide)⟩
   · cases e; exact ⟨h.emit, fun q => by simpa using q, fun hh => absurd hh (by decide), fun _ => by simp⟩
   · cases e
